@@ -276,6 +276,9 @@ impl Scratch {
                 if k == "file" {
                     v["size"] = json!(st.st_size);
                 }
+                if k == "chr" || k == "blk" {
+                    v["rdev"] = json!(st.st_rdev);
+                }
                 inodes.insert(id, v);
                 if k == "dir" {
                     self.walk(&path, id, dents, inodes, depth + 1);
